@@ -2,3 +2,5 @@ import GodiModel.Kahn
 import GodiModel.Dfs
 import GodiModel.Graph
 import GodiModel.Spec.Digraph
+import GodiModel.Container
+import GodiModel.Build
